@@ -274,6 +274,11 @@ def run(tier: str) -> int:
     ops = [o for o in calcheck.maximal(calcheck.tlc_scripts("Gen_C02")) if not any(x[0] == "fault" for x in o)]
     scripts = [calcheck.to_script(o, base, seed=rng.randrange(1, 10**6), saving=True)
                for o in calcheck.sample_scripts(ops, 60 if tier == "quick" else 600, rng)]
+    # ... also when calibrate() returns early (convergence stop): the folder holds the state it returned with
+    b14 = calcfg.config("Gen_C14")
+    o14 = calcheck.maximal(calcheck.tlc_scripts("Gen_C14"))
+    scripts += [calcheck.to_script(o, b14, seed=rng.randrange(1, 10**6), saving=True, verbose=rng.random() < 0.5, prec=rng.randint(0, 12))
+                for o in calcheck.sample_scripts(o14, 40 if tier == "quick" else 269, rng)]
     traces = calcheck.execute(scripts)
     calcheck.validate(chk, traces, relevant={"C04", "C05"})
     # (D) growth beyond the listed property: the restore gates
